@@ -44,9 +44,5 @@ Qed.
 (* C12_replicated_default_axis_refuted removed: repaired in /repo (fix 760899e); the positive statement is
    Properties/C12.v C12_replicated_default_axis_rejected. *)
 
-(** SingleAxisFiniteDifference with an axis below -rank: accepted, declared shape unchanged,
-    evaluation differences the axis counted from the end; the documented rule rejects it *)
-Lemma C12_fd_negative_axis_refuted : exists s ax,
-  safd_spec s ax None None false = None /\
-  safd_declared s ax None None false <> safd_actual s ax None None false.
-Proof. exists [3; 4], (-3). vm_compute. split; [reflexivity|discriminate]. Qed.
+(* C12_fd_negative_axis_refuted removed: repaired in /repo (fix fdc6426); positive statement:
+   Properties/C12.v C12_fd_axis_out_of_range_rejected. *)
